@@ -224,4 +224,77 @@ theorem fusePreds_keeps_requested (d d' : DagRec) (name : String) (ps : Params) 
           · refine ⟨q, List.mem_map.mpr ⟨q, List.mem_filter.mpr ⟨hq, by simp only [hkeep, Bool.not_false]⟩, ?_⟩, hqa⟩
             simp [hqn]
 
+/-- Op names identify records (a networkx graph has one node per name). -/
+def NamesUnique (d : DagRec) : Prop :=
+  ∀ r₁ ∈ d.ops, ∀ r₂ ∈ d.ops, r₁.name = r₂.name → r₁ = r₂
+
+/-- `fuse_predecessors` keeps op names unique: it drops records and replaces one record by a record of the same name. -/
+theorem fusePreds_names_unique (d d' : DagRec) (name : String) (ps : Params)
+    (hnames : NamesUnique d) (h : fusePreds d name ps = some d') : NamesUnique d' := by
+  unfold fusePreds at h
+  cases hf : findOp d name with
+  | none => simp only [hf] at h; cases h; exact hnames
+  | some o =>
+    simp only [hf] at h
+    cases hc : canFuse d o ps with
+    | none => simp only [hc] at h; cases h
+    | some b =>
+      cases b with
+      | false => simp only [hc] at h; cases h; exact hnames
+      | true =>
+        simp only [hc] at h
+        cases hpo : poa d o with
+        | none => simp only [hpo] at h; cases h
+        | some triples =>
+          simp only [hpo] at h
+          cases h
+          have ho : o ∈ d.ops ∧ (o.name == name) = true := by
+            unfold findOp at hf
+            exact ⟨List.mem_of_find?_eq_some hf, by simpa using List.find?_some hf⟩
+          have hon : o.name = name := by simpa using ho.2
+          intro r₁ hr₁ r₂ hr₂ hn
+          obtain ⟨q₁, hq₁, rfl⟩ := List.mem_map.mp hr₁
+          obtain ⟨q₂, hq₂, rfl⟩ := List.mem_map.mp hr₂
+          have hq₁d := (List.mem_filter.mp hq₁).1
+          have hq₂d := (List.mem_filter.mp hq₂).1
+          -- the replacement keeps the name
+          have hname : ∀ q : OpRec,
+              (if (q.name == name) = true then
+                { fuseRec o (triples.map (fun t => if t.2.2 then some t.1 else none)) with
+                  inEdges := (o.inEdges.filter (fun a => !((triples.filter (·.2.2)).map (·.2.1)).contains a))
+                    ++ (triples.filter (·.2.2)).flatMap (fun t => t.1.inEdges) }
+               else q).name = q.name := by
+            intro q
+            by_cases hq : (q.name == name) = true
+            · simp only [hq, if_true, fuseRec]
+              have : q.name = name := by simpa using hq
+              rw [this, hon]
+            · simp [hq]
+          have hqq : q₁ = q₂ := hnames q₁ hq₁d q₂ hq₂d (by rw [← hname q₁, ← hname q₂]; exact hn)
+          rw [hqq]
+
+/-- **The whole structural optimizer run never drops a requested array.** -/
+theorem optimize_keeps_requested (order : List String) (d d' : DagRec) (ps : Params) (a : String)
+    (hnames : NamesUnique d) (ha : ps.arrayNames.contains a = true)
+    (h : optimize d order ps = some d')
+    (hp : ∃ q ∈ d.ops, q.outputs.contains a = true) :
+    (∃ q' ∈ d'.ops, q'.outputs.contains a = true) ∧ NamesUnique d' := by
+  unfold optimize at h
+  induction order generalizing d with
+  | nil =>
+    rw [List.foldlM_nil] at h
+    cases h; exact ⟨hp, hnames⟩
+  | cons n rest ih =>
+    rw [List.foldlM_cons] at h
+    cases h1 : (if n.startsWith "array-" = true then some d else fusePreds d n ps) with
+    | none => rw [h1] at h; cases h
+    | some d1 =>
+      rw [h1] at h
+      have hstep : (∃ q ∈ d1.ops, q.outputs.contains a = true) ∧ NamesUnique d1 := by
+        by_cases hs : n.startsWith "array-" = true
+        · rw [if_pos hs] at h1; cases h1; exact ⟨hp, hnames⟩
+        · rw [if_neg hs] at h1
+          exact ⟨fusePreds_keeps_requested d d1 n ps a hnames ha h1 hp, fusePreds_names_unique d d1 n ps hnames h1⟩
+      exact ih d1 hstep.2 h hstep.1
+
 end Cubed.Opt
